@@ -41,6 +41,7 @@ def run(db, rep, feat, tier):
     r2(db, rep)
     idxkind.rule(db, rep, "R2b")
     r3(db, rep)
+    r2c(db, rep)
     r4(db, rep)
 
 
@@ -160,6 +161,31 @@ def r3(db, rep):
                 e = [last_seg(x.get("fn", {}).get("ctor_of", "") or "") for x in walk(n.get("else", {})) if x.get("k") == "Call"]
                 excl = "EmptyBlock" in t and "Instruction" in e and "Instruction" not in t and "EmptyBlock" not in e
     r.decide(excl, "locations|empty_vs_instructions", db.where(hb), "EmptyBlock and Instruction locations must be exclusive per block")
+
+
+def r2c(db, rep):
+    r = rep.rule("R2c", "K7", "instructions are looked up by comparing indices, never by an order-dependent search: no binary search "
+                 "(or other sortedness assumption) over a block's instruction vector - instructions_mut() lets callers reorder it, "
+                 "and index order is not an invariant")
+    n = 0
+    bad = []
+    for k in db.mir.keys():
+        if not k.startswith("il::"):
+            continue
+        body = db.mir[k]
+        for i, t in mir_calls(body):
+            c = mir_callee(t) or ""
+            if "binary_search" in c or "partition_point" in c:
+                fg = t.get("fg") or ""
+                if "Instruction" in fg or "instruction" in fg.lower():
+                    bad.append((k, c, t.get("l"), body))
+        n += 1
+    for k, c, l, body in bad:
+        r.bad("ordered_search|%s" % last_seg(k), db.where(body, l),
+              "%s searches the instruction vector with %s: an instruction is not found once the vector is not in ascending index "
+              "order (hoisting through instructions_mut), so FunctionLocation::apply fails for an existing instruction" % (last_seg(k), last_seg(c)))
+    if not bad:
+        r.ok("ordered_search|none", "", detail={"functions_scanned": n})
 
 
 def r4(db, rep):
